@@ -5,6 +5,7 @@ package main
 
 import (
 	"bufio"
+	"encoding/hex"
 	"encoding/json"
 	"flag"
 	"fmt"
@@ -13,6 +14,7 @@ import (
 	"runtime"
 	"runtime/debug"
 	"sort"
+	"strconv"
 	"strings"
 	"time"
 )
@@ -260,6 +262,18 @@ func main() {
 	replay := flag.String("replay", "", "replay file")
 	list := flag.Bool("list", false, "list impl entry points")
 	flag.Parse()
+	for _, t := range strings.Split(os.Getenv("VERIF_DICT"), ",") {
+		if v, err := strconv.ParseUint(strings.TrimSpace(t), 0, 64); err == nil {
+			dictU64 = append(dictU64, v)
+		} else if v, err := strconv.ParseInt(strings.TrimSpace(t), 0, 64); err == nil {
+			dictU64 = append(dictU64, uint64(v))
+		}
+	}
+	for _, t := range strings.Split(os.Getenv("VERIF_DICT_BYTES"), ",") {
+		if b, err := hex.DecodeString(strings.TrimSpace(t)); err == nil && len(b) > 0 {
+			dictBytes = append(dictBytes, b)
+		}
+	}
 	debug.SetMemoryLimit(12 << 30)
 	// the code under test prints debugging output in places; keep it out of our stdout
 	if dn, err := os.OpenFile(os.DevNull, os.O_WRONLY, 0); err == nil {
